@@ -31,7 +31,7 @@ FUNCS = ['fol.Context.add_expr', 'fol.Context.declare', 'fol.Context._avoid_rede
          'temporal.Automaton._fetch_expr', 'symbolic.bdd.add_expr', 'symbolic.bdd_iterative.add_expr',
          'orthotopes.setup_aux_vars', 'gr1.make_streett_transducer']
 SOLVER_MS = 60000
-OPS = 'ADQSPRGCTVIB'      # operation alphabet of the histories
+OPS = 'ADQSPRGCTVIBO'      # operation alphabet of the histories
 DECL = dict(x=(0, 5), y=(-3, 2), b='bool')
 
 
@@ -275,6 +275,24 @@ class History:
                 if z != g.false:
                     gr1.make_streett_transducer(z, yij, xijk, g)
                     self.tracked.append(('synthesized action', g.action['impl'], self.export(g.action['impl'])))
+        elif op == 'O':
+            # copy of the automaton; an operator of the same name is registered with different bodies in the
+            # copy and in the original; entries labelled by the operator name must mean the local definition
+            import copy as _copy
+            self.n_decl += 1
+            nm = f'op{self.n_decl}'
+            cp = _copy.copy(aut)
+            s1, s2 = self.formula(), self.formula()
+            first, second = (aut, cp) if rnd.random() < 0.5 else (cp, aut)
+            first.define(f'{nm} == {s1}')
+            second.define(f'{nm} == {s2}')
+            t1 = self.export(aut.add_expr(s1 if first is aut else s2))
+            t2 = self.export(aut.add_expr(s2 if first is aut else s1))
+            aut.init[f'o{self.n_decl}'] = nm
+            cp.init[f'o{self.n_decl}'] = nm
+            self.tracked.append((f'operator {nm} in the original', aut.init[f'o{self.n_decl}'], t1))
+            self.tracked.append((f'operator {nm} in the copy', cp.init[f'o{self.n_decl}'], t2))
+            aut.init.pop(f'o{self.n_decl}')
         elif op == 'V':
             # the same expression twice gives the same answer
             s = self.formula()
@@ -400,7 +418,7 @@ def check_histories(seqs, seed):
         problems, q = h.run()
         dt = time.time() - t1
         sample = dict(operations=seq, alphabet='A add, D declare, Q quantify, S substitute, P print as formula, R reorder, '
-                      'G collect garbage, C copy to another context and back, T synthesize, V repeat, I assign init/action from a formula, B from a computed BDD',
+                      'G collect garbage, C copy to another context and back, T synthesize, V repeat, I assign init/action from a formula, B from a computed BDD, O copy the automaton and define a same-named operator in both',
                       tracked_bdds=len(h.tracked))
         if not problems:
             out.append(core.res(name, 'holds', queries=q, solver_s=dt, sample=sample, nontrivial=len(h.tracked) >= 2, functions=FUNCS))
